@@ -544,8 +544,6 @@ val model_lines : char list -> char list list
 
 val split_M : char list -> char list list * exn option
 
-val mem_string : char list -> char list list -> bool
-
 val dict_combine :
   char list -> symbol -> (char list * symbol) list -> (char list * symbol)
   list outcome
@@ -625,6 +623,7 @@ type chk_res =
 | ChkSyntaxWarning
 | ChkOtherWarning of nat
 | ChkOtherExn
+| ChkCaughtExn
 
 type verdict =
 | VFine
@@ -855,6 +854,15 @@ val index_of : char list -> char list list -> nat option
 val row_of : char list list -> char list -> nat option
 
 val assoc_stmt : char list -> (char list * sstmt) list -> sstmt option
+
+val code_index : char list -> (z * char list) option
+
+val code_word : char list -> ctok
+
+val lex_code : nat -> char list -> ctok list
+
+val stmt_of_code :
+  (char list -> nat option) -> char list -> (char list * sstmt) option
 
 val program_of_symbols :
   symbol list -> char list list -> (char list list * sprogram) option
